@@ -10,6 +10,10 @@ Element specs: see `specOf`.  Requests:
   {"op":"fold","prog":[spec..],"flow":[v..]}     compose the documented transformations `Element.den` of the flattened
                                                  data elements (the right-hand side of `run_eq_fold`)
   {"op":"flats","prog":[spec..]}                 number of top-level elements after dissolving nested {"k":"seq"} groups
+  {"op":"rerun","prog":[..],"pasts":[[v..]..],"flow":[v..],"cut":k}   one Sequence object run repeatedly
+  {"op":"sound","prog":[..]}                     conversion chosen per data element, and Stored.soundB
+  {"op":"callall","prog":[callables],"flow":..}  mapS (callAll es) flow
+  {"op":"splits","branches":[[spec..]..],"bufsize":b,"flow":..}   Split.run by the schedule `splitS`
   {"op":"source","args":[spec..]}                Source(*args)()
   {"op":"source_then","args":[..],"prog":[..]}   Sequence(*prog).run(Source(*args)())
   {"op":"flags","spec":spec}                     what the constructors can observe of the object
@@ -193,6 +197,60 @@ def handle (j : Json) : Json :=
         | [] => Json.null
       Json.mkObj [("n", ofNat (Spec.flats prog).length), ("nargs", nargs), ("first", shape1)]
     | none => err "bad flats args"
+  | some "rerun" =>
+    -- one `Sequence(*prog)` object run on every flow of "pasts" (drained), then on "flow":
+    -- "whole" = `Seq.rerun`; "split" = the form of `seq_rerun_append` with the sequence cut at "cut"
+    match specsOf (getD j "prog"), strmOf j, (arr? (getD j "pasts")).bind (fun a => a.toList.mapM valuesOf),
+          nat? (getD j "cut") with
+    | some prog, some flow, some pasts, some cut =>
+      let past := pasts.map Strm.ofList
+      match Spec.toElements prog with
+      | .error e => initErr e
+      | .ok es =>
+        match mkSequence es, mkSequence (es.take cut), mkSequence (es.drop cut) with
+        | .ok s, .ok sa, .ok sb =>
+          Json.mkObj [("whole", outJson (s.rerun past flow)),
+                      ("split", outJson (sa.rerun past flow >>= sb.rerun (pastOutsAll sa.stored past))),
+                      ("pasts", Json.arr ((List.range past.length).map
+                        (fun i => outJson (s.rerun (past.take i) ((past.drop i).headD .nil)))).toArray)]
+        | .error e, _, _ => initErr e
+        | _, .error e, _ => initErr e
+        | _, _, .error e => initErr e
+    | _, _, _, _ => err "bad rerun args"
+  | some "sound" =>
+    -- per stored entry of `Sequence(*prog)` (flat): the conversion chosen and whether its method exists
+    match specsOf (getD j "prog") with
+    | some prog =>
+      match Spec.toElements prog with
+      | .error e => initErr e
+      | .ok es =>
+        match mkSequence es with
+        | .error e => initErr e
+        | .ok s => Json.mkObj [("modes", Json.arr (s.stored.map (fun st => Json.str st.modeName)).toArray),
+                               ("sound", Json.arr (s.stored.map (fun st => Json.bool st.soundB)).toArray)]
+    | none => err "bad sound args"
+  | some "callall" =>
+    -- the right-hand side of `run_callables`
+    match specsOf (getD j "prog"), strmOf j with
+    | some prog, some flow =>
+      match Spec.toElements prog with
+      | .error e => initErr e
+      | .ok es => outJson (.ok (mapS (callAll es) flow))
+    | _, _ => err "bad callall args"
+  | some "splits" =>
+    -- `Split([tuple..], bufsize).run(flow)` by the simple schedule `splitS` (stateless sequence branches)
+    match (arr? (getD j "branches")).bind (fun a => a.toList.mapM specsOf), strmOf j with
+    | some bss, some flow =>
+      let bufsize := getD j "bufsize"
+      match Spec.toElementss bss with
+      | .error e => initErr e
+      | .ok ess =>
+        match ess.mapM mkSequence with
+        | .error e => initErr e
+        | .ok seqs =>
+          if (nat? bufsize) = some 0 then initErr .lenaValueError
+          else outJson (.ok (splitS (seqs.map Seq.run) (if bufsize.isNull then none else nat? bufsize) flow))
+    | _, _ => err "bad splits args"
   | some "source" =>
     match specsOf (getD j "args") with
     | some args =>
